@@ -120,6 +120,8 @@ def _var_change(path, var):
                 net += v.right.value
                 kind = kind or 'const'
                 continue
+            if _readback_same(path, n, a, var):
+                continue
             lin = _linear_net(path, var)
             if lin is not None:
                 return ('const', lin)
@@ -127,6 +129,64 @@ def _var_change(path, var):
     if kind == 'const':
         return ('const', net)
     return ('same', )
+
+
+def _readback_same(path, node, a, var):
+    """``var = obj.attr`` where, earlier on the path, ``obj = C(.., var,
+    ..)`` and C.__init__ stores that parameter in ``attr`` (possibly with a
+    default for None): the variable gets its own value back."""
+    v = a.value
+    if not (isinstance(v, ast.Attribute) and isinstance(v.value, ast.Name)):
+        return False
+    obj, attr = v.value.id, v.attr
+    ctor = None
+    for n2 in path.nodes:
+        if n2 is node:
+            break
+        a2 = n2.ast
+        if n2.kind == 'stmt' and isinstance(a2, ast.Assign) and any(
+                isinstance(t, ast.Name) and t.id == obj
+                for t in a2.targets):
+            ctor = a2.value if isinstance(a2.value, ast.Call) else None
+        elif n2.kind == 'stmt' and isinstance(a2, (ast.Assign,
+                                                   ast.AugAssign)):
+            tg = a2.targets if isinstance(a2, ast.Assign) else [a2.target]
+            if any(isinstance(t, ast.Name) and t.id == var for t in tg):
+                ctor = None  # var changed since the construction
+    if ctor is None or not isinstance(ctor.func, ast.Name):
+        return False
+    pos = [i for i, x in enumerate(ctor.args)
+           if isinstance(x, ast.Name) and x.id == var]
+    if len(pos) != 1:
+        return False
+    fn = _fn(a)
+    mod = getattr(fn, '_module', None)
+    if mod is None:
+        return False
+    init = mod.funcs.get(f'{ctor.func.id}.__init__')
+    if init is None:
+        return False
+    ps = params_of(init)
+    if pos[0] + 1 >= len(ps):
+        return False
+    pname = ps[pos[0] + 1]
+    stores = [st for st in walk_no_nested(init)
+              if isinstance(st, ast.Assign) and any(
+                  unparse(t) == f'{ps[0]}.{attr}' for t in st.targets)]
+    if not stores:
+        return False
+    for st in stores:
+        val = st.value
+        if isinstance(val, ast.Name) and val.id == pname:
+            continue
+        if isinstance(val, ast.IfExp):
+            t = unparse(val.test).replace(' ', '')
+            if t == f'{pname}isNone' and unparse(val.orelse) == pname:
+                continue
+            if t == f'{pname}isnotNone' and unparse(val.body) == pname:
+                continue
+        return False
+    return True
 
 
 def _linear_net(path, var):
@@ -244,14 +304,18 @@ def classify_loop(m, f, loop):
                 continue
             if all(ch[0] == 'same' for ch in changes):
                 continue  # not the loop's variant variable
-            up = isinstance(c.ops[0], (ast.Lt, ast.LtE)) and any(
-                isinstance(x, ast.Name) and x.id == v
-                for x in ast.walk(c.left)) or isinstance(
-                    c.ops[0], (ast.Gt, ast.GtE)) and c in exit_tests and any(
-                        isinstance(x, ast.Name) and x.id == v
-                        for x in ast.walk(c.left))
-            down = isinstance(c.ops[0], (ast.Gt, ast.GtE)) and c in atoms \
-                and unparse(c.left) == v
+            in_left = any(isinstance(x, ast.Name) and x.id == v
+                          for x in ast.walk(c.left))
+            if c in exit_tests and c not in atoms:
+                # "if v >= bound: break" continues while v < bound (up);
+                # "if v <= 0: break" continues while v > 0 (down)
+                up = isinstance(c.ops[0], (ast.Gt, ast.GtE)) and in_left
+                down = isinstance(c.ops[0], (ast.Lt, ast.LtE)) and \
+                    unparse(c.left) == v
+            else:
+                up = isinstance(c.ops[0], (ast.Lt, ast.LtE)) and in_left
+                down = isinstance(c.ops[0], (ast.Gt, ast.GtE)) and \
+                    unparse(c.left) == v
             others = [x for x in names if x != v]
             moved = [o for o in others for p in paths
                      if _var_change(p, o)[0] != 'same']
